@@ -26,6 +26,32 @@ HOLES = ["(%s)", "[%s, 2]", "[...[%s], 0]", "{k: %s}.k", "(q9 => q9)(%s)", "([1,
          "reduce([1], (a9, q9) => [a9, %s], 0)"]
 
 
+def wide_builtin_programs():
+    """programs binding w9 to a value computed with each built-in, chosen so that any dependence on hash
+    iteration order, allocation or earlier evaluations would show in the printed value"""
+    L = "[\"pear\", \"fig\", \"apple\", \"kiwi\", \"plum\", \"fig\", \"date\", \"lime\", \"pear\", \"nut\"]"
+    R = "{zeta: 1, alpha: 2, mid: 3, b: 4, a: 5, yy: 6, c: 7, k9: 8}"
+    N = "[5, 3, 9, 1, 3, 7, 2, 8, 6, 4]"
+    exprs = [
+        "count_by(%s, s => s)" % L, "group_by(%s, s => s[0])" % L, "keys(count_by(%s, s => s))" % L,
+        "entries(group_by(%s, s => to_string(len(s))))" % L, "unique(%s)" % L, "sort(%s)" % L, "sort_by(%s, s => len(s))" % L,
+        "keys(%s)" % R, "values(%s)" % R, "entries(%s)" % R, "{...%s, extra: 0}" % R, "[...%s]" % R,
+        "reverse(%s)" % N, "sort(%s)" % N, "zip(%s, %s)" % (N, L), "chunk(%s, 3)" % N, "flatten([%s, %s])" % (N, N),
+        "[min(%s), max(%s), avg(%s), sum(%s), prod(%s), median(%s), percentile(%s, 30)]" % ((N,) * 7),
+        "map(%s, (x, i) => [x, i])" % N, "filter(%s, x => x > 3)" % N, "reduce(%s, (a, x) => a + x, 0)" % N,
+        "[every(%s, x => x > 0), some(%s, x => x > 8), any([true, false]), all([true])]" % (N, N),
+        "split(\"a,b,c,d\", \",\")", "join(%s, \"-\")" % L, "replace(\"banana\", \"an\", \"AN\")", "[trim(\"  x \"), uppercase(\"abc\"), lowercase(\"ABC\")]",
+        "[to_string(1.5), to_number(\"2.5\"), to_bool(1), typeof(%s), arity(map)]" % R, "format(\"{} and {}\", 1234567.891, \"x\")",
+        "[convert(1, \"km\", \"m\"), convert(32, \"f\", \"c\")]", "[includes(%s, \"fig\"), len(%s), head(%s), tail(%s), slice(%s, 2, 5)]" % ((L,) * 5),
+        "range(3, 9)", "concat(%s, %s)" % (N, L), "dot([1, 2, 3], [4, 5, 6])", "[ugt(2, 1), ult(\"a\", \"b\"), ugte(1, 1), ulte([1], [2])]",
+        "[abs(-2), floor(2.5), ceil(2.5), round(2.567, 2), trunc(-2.5), sqrt(2), sin(1), cos(1), tan(1), asin(0.5), acos(0.5), atan(1), log(2), log10(2), exp(1)]",
+        "random(42)", "%s where (s => len(s) > 3)" % L, "%s via (s => s + \"!\")" % L,
+        "count_by(map(range(0, 40), i => to_string(i * 7 % 13)), s => s)",
+        "group_by(map(range(0, 40), i => {k: to_string(i % 11), v: i}), r => r.k)",
+    ]
+    return ["w9 = %s\n[to_string(w9), to_string(w9) == to_string(%s)]" % (e, e) for e in exprs]
+
+
 def strip_names(s):
     return re.sub(r"@(-|[0-9a-f]+)", "", s)
 
@@ -88,6 +114,25 @@ def main(argv):
             cli_diff += 1
             res.violation("the CLI gave different outputs for the same program in two runs",
                           {"kind": "impl-cli", "program": p, "observed": [r1.stdout[-300:], r2.stdout[-300:]]})
+    # every built-in (modelled or not) with order-sensitive observations, several processes + CLI
+    wide = wide_builtin_programs()
+    wruns = [es.rust_eval(h, wide) for _ in range(nproc + 1)]
+    for i, p in enumerate(wide):
+        outs_ = {r[i] for r in wruns}
+        if len(outs_) != 1:
+            nondet += 1
+            if nondet <= 6:
+                res.violation("the same program gave different results in different processes (built-in coverage set)",
+                              {"kind": "impl-law", "program": p, "observed": sorted(outs_)[:3]})
+    for p in wide[:: (4 if tier == "quick" else 1)]:
+        outs_ = set()
+        for _ in range(3):
+            r_ = subprocess.run([cli, p + "\noutput zz9 = to_string(w9)"], stdin=subprocess.DEVNULL, capture_output=True, text=True)
+            outs_.add((r_.returncode, r_.stdout))
+        if len(outs_) != 1:
+            cli_diff += 1
+            res.violation("the CLI gave different outputs for the same program in different runs (built-in coverage set)",
+                          {"kind": "impl-cli", "program": p, "observed": [o[1][-200:] for o in outs_]})
     agree, mism, skipped, rejected = 0, [], 0, 0
     try:
         coq, _ = es.parse_to_coq(h, progs)
@@ -99,7 +144,7 @@ def main(argv):
         i, r, m = mism[0]
         res.tie_broken("correspondence C02/EVAL: model and implementation disagree on %d of %d programs" % (len(mism), n_prog),
                        "first: %r\nimpl : %s\nmodel: %s" % (progs[i], r, m))
-    res.streams["DETERMINISM"] = {"programs": n_prog, "processes": nproc, "dirty_heap_run": True, "cli_pairs": cli_n,
+    res.streams["DETERMINISM"] = {"programs": n_prog, "wide_builtin_programs": len(wide), "processes": nproc, "dirty_heap_run": True, "cli_pairs": cli_n,
                                   "nondeterministic": nondet + cli_diff, "model_agree": agree, "mismatches": len(mism),
                                   "skipped_unmodelled": skipped, "parser_rejected": rejected,
                                   "generator_node_histogram": g.stats}
@@ -125,6 +170,27 @@ def main(argv):
         var = "\n".join(prefix + ["t9fresh = " + sub, hole % (("t9fresh",) * nh)])
         twice = "\n".join(prefix + ["[%s, %s]" % (sub, sub), "[%s]" % sub])
         pairs.append((orig, var, twice, sub))
+    # function-valued subexpressions (named, recursive, escaped from do-blocks, aliases), abstracted at
+    # top level AND inside a do-block
+    FDEFS = ("mk9 = () => do {\n  fc9 = n => if n < 2 then 1 else n * fc9(n - 1)\n  return fc9\n}\n"
+             "rec9 = do {\n  fd9 = n => if n < 1 then 0 else n + fd9(n - 1)\n  return {f: fd9}\n}\n"
+             "nm9 = x => x + 1\n")
+    FSUBS = ["mk9()", "rec9.f", "nm9", "(x => x * 2)", "mk9", "[mk9()][0]", "(if true then rec9.f else nm9)"]
+    FHOLES = ["(%s)(4)", "[3, 4] via %s", "map([3, 4], %s)", "(4 into %s)", "[(%s)(3), (%s)(4)]",
+              "do {\n  u9 = (%s)(4)\n  return [u9, (%s)(3)]\n}"]
+    for sub in FSUBS:
+        for hole in FHOLES:
+            if sub == "mk9" and "via" in hole:
+                continue
+            nh = hole.count("%s")
+            call = hole if sub != "mk9" else hole
+            orig = FDEFS + (hole % ((sub,) * nh))
+            var = FDEFS + "t9fresh = " + sub + "\n" + (hole % (("t9fresh",) * nh))
+            var_do = FDEFS + "do {\n  t9loc = " + sub + "\n  return " + (hole % (("t9loc",) * nh)).replace("\n", "\n  ") + "\n}"
+            twice = FDEFS + "[%s, %s]\n[%s]" % (hole % ((sub,) * nh), hole % ((sub,) * nh), hole % ((sub,) * nh))
+            pairs.append((orig, var, twice, sub))
+            # the do-block variant has no separate abstraction statement: pad so that the result positions line up
+            pairs.append((orig, FDEFS + "0\n" + var_do.split(FDEFS, 1)[1], twice, sub))
     flat = []
     for o, v, t, _ in pairs:
         flat += [o, v, t]
